@@ -177,3 +177,13 @@ package batchers
 //@   requires batchSize >= 1 && batchBuffer >= 0 && reader != nil
 //@   modifies world
 //@   ensures result != nil && result.c != nil
+
+// ---- C04: the byte counter in front of the scanner is transparent ----
+// it hands on exactly what the wrapped reader delivered in this call - the same count (also when
+// data arrives together with an error), the same bytes, the same error - and adds that count to
+// its counter.
+//@ func (*readerMetrics).Read
+//@   requires s != nil && s.r != nil && !rd_closed(s.r) && len(p) >= 1
+//@   ensures [same-count] 0 <= n && n <= len(p) && rd_len(old(s.r)) == old(rd_len(s.r)) + n
+//@   ensures [same-bytes] forall i in [0, n) :: p[i] == rd(old(s.r))[old(rd_len(s.r)) + i]
+//@   ensures [same-error] rd_closed(old(s.r)) == (err != nil) && rd_failed(old(s.r)) == (err != nil && err != io.EOF)
